@@ -113,6 +113,9 @@ func (e *Engine) VerifyFunc(key string, small bool) *FnCtx {
 		_ = resT
 		site := fmt.Sprintf("b%d", r.blk.Index)
 		for _, c := range ctr.Ensures {
+			if len(c.OnlyFor) > 0 && e.CurProp != "" && !containsStr(c.OnlyFor, e.CurProp) {
+				continue
+			}
 			goalE := c.E
 			// `afterloop(k) ==> P`: only at return sites dominated by the header of loop k
 			if imp, ok := goalE.(*EBinary); ok && imp.Op == "==>" {
@@ -343,6 +346,15 @@ func (fr *frame) modifiesObls(ctr *FuncContract, envPre *Env, r retSite, site st
 		}
 		fc.obls = append(fc.obls, &Obl{Func: fc.key, Kind: "modifies", Label: fc.labelOfComp(k), Site: site, NFacts: len(fc.facts), Path: r.reach, Goal: goal, Text: "frame: " + k + " unchanged outside the modifies clause"})
 	}
+}
+
+func containsStr(xs []string, x string) bool {
+	for _, y := range xs {
+		if y == x {
+			return true
+		}
+	}
+	return false
 }
 
 func (fc *FnCtx) labelOfComp(k string) string {
